@@ -231,6 +231,13 @@ class ToLean:
             if ta != 'Int' or tb != 'Int':
                 if ta == tb == 'Str' and isinstance(e.op, ast.Add):
                     return f'({a} ++ {b})', 'Str'
+                if {ta, tb} <= {'Int', 'Rat'} and type(e.op) in (ast.Add, ast.Sub, ast.Mult):
+                    # exact rational arithmetic stands for the float computation; whether the float result agrees is the
+                    # site's documented precondition (products of a small count with a decimal literal, truncated by int())
+                    ca = f'(({a} : Int) : Rat)' if ta == 'Int' else a
+                    cb = f'(({b} : Int) : Rat)' if tb == 'Int' else b
+                    sym = {ast.Add: '+', ast.Sub: '-', ast.Mult: '*'}[type(e.op)]
+                    return f'({ca} {sym} {cb})', 'Rat'
                 raise TranslateError(f'non-integer arithmetic {unp(e)}')
             op = type(e.op)
             if op in (ast.Add, ast.Sub, ast.Mult):
@@ -308,6 +315,8 @@ class ToLean:
                     a, ta = self.tr(x)
                     if ta == 'Int':
                         return a, 'Int'
+                    if ta == 'Rat':
+                        return f'(Py.truncRat {a})', 'Int'
                 if f == 'len' and len(e.args) == 1:
                     a, ta = self.tr(e.args[0])
                     if ta == 'Str':
